@@ -28,9 +28,95 @@ type dctCase struct {
 	Pix             []int  `json:"pix,omitempty"`
 }
 
+var zigzagNat = [64]int{0, 1, 8, 16, 9, 2, 3, 10, 17, 24, 32, 25, 18, 11, 4, 5, 12, 19, 26, 33, 40, 48, 41, 34, 27, 20, 13, 6, 7, 14, 21, 28,
+	35, 42, 49, 56, 57, 50, 43, 36, 29, 22, 15, 23, 30, 37, 44, 51, 58, 59, 52, 45, 38, 31, 39, 46, 53, 60, 61, 54, 47, 55, 62, 63}
+
+// skewedACImage builds a 712x608 grey image of 6764 blocks, each holding the level-shift plus one AC coefficient, so that
+// the AC symbols (run r, size 1) for r = 15..0 and (0, size 2) occur 1, 2, 3, 5, ... 2584 times (Fibonacci): with EOB that is
+// 18 symbols whose optimal Huffman tree is 17 levels deep, which drives the encoder's table optimisation into its
+// 16-bit length limit. The quantisation table is read from a stream the same encoder produces at the same quality.
+func skewedACImage(a dctCase) []int {
+	mid, max := 128, 255
+	if a.Codec == 2 {
+		mid, max = 2048, 4095
+	}
+	flat := make([]int, 64)
+	for i := range flat {
+		flat[i] = mid
+	}
+	probe, err := dctEncode(dctCase{Codec: a.Codec, W: 8, H: 8, C: 1, Q: a.Q}, flat)
+	if err != nil {
+		return nil
+	}
+	h, err := ref.ParseJPEGHeader(probe)
+	if err != nil || len(h.Comps) == 0 {
+		return nil
+	}
+	q := h.Q[h.Comps[0].Tq]
+	var kinds []int // kind k < 16: run k, value 1; kind 16: run 0, value 2
+	fa, fb := 1, 2
+	for k := 15; k >= 0; k-- {
+		for i := 0; i < fa; i++ {
+			kinds = append(kinds, k)
+		}
+		fa, fb = fb, fa+fb
+	}
+	for i := 0; i < fa; i++ {
+		kinds = append(kinds, 16)
+	}
+	l := eng.NewLCG(a.Q + 7*a.Codec)
+	for i := len(kinds) - 1; i > 0; i-- {
+		j := int(l.Next()>>8) % (i + 1)
+		kinds[i], kinds[j] = kinds[j], kinds[i]
+	}
+	w, hgt := a.W, a.H
+	s := make([]int, w*hgt)
+	for i := range s {
+		s[i] = mid
+	}
+	bx := w / 8
+	for bi, k := range kinds {
+		if bi >= bx*(hgt/8) {
+			break
+		}
+		pos, val := k+1, 1.0
+		if k == 16 {
+			pos, val = 1, 2.0
+		}
+		nat := zigzagNat[pos]
+		u, v := nat%8, nat/8
+		f := val * float64(q[nat])
+		cu, cv := 1.0, 1.0
+		if u == 0 {
+			cu = 1 / math.Sqrt2
+		}
+		if v == 0 {
+			cv = 1 / math.Sqrt2
+		}
+		x0, y0 := (bi%bx)*8, (bi/bx)*8
+		for y := 0; y < 8; y++ {
+			for x := 0; x < 8; x++ {
+				p := float64(mid) + 0.25*cu*cv*f*math.Cos(float64(2*x+1)*float64(u)*math.Pi/16)*math.Cos(float64(2*y+1)*float64(v)*math.Pi/16)
+				pv := int(math.Round(p))
+				if pv < 0 {
+					pv = 0
+				}
+				if pv > max {
+					pv = max
+				}
+				s[(y0+y)*w+x0+x] = pv
+			}
+		}
+	}
+	return s
+}
+
 func dctContent(a dctCase) []int {
 	if a.Pix != nil {
 		return a.Pix
+	}
+	if a.Kind == "skew" {
+		return skewedACImage(a)
 	}
 	max := 255
 	if a.Codec == 2 {
@@ -268,6 +354,11 @@ func dctEnumerate(c *eng.Ctx, sub string, codecs []int, run func(dctCase, *eng.C
 					jobs = append(jobs, dctCase{Codec: cd, W: sz[0], H: sz[1], C: nc, Q: q, Kind: "exh", K: -1})
 				}
 			}
+			if nc == 1 {
+				for _, q := range []int{50, 75} {
+					jobs = append(jobs, dctCase{Codec: cd, W: 712, H: 608, C: 1, Q: q, Kind: "skew", K: 100})
+				}
+			}
 			big := [][2]int{{64, 64}, {100, 37}, {256, 3}}
 			if c.Thorough() {
 				big = append(big, [2]int{512, 512}, [2]int{255, 257}, [2]int{2048, 1}, [2]int{1, 2048})
@@ -305,6 +396,13 @@ func dctEnumerate(c *eng.Ctx, sub string, codecs []int, run func(dctCase, *eng.C
 			}
 			return
 		}
+		if j.Kind == "skew" {
+			c.Eval(1)
+			if f := eng.Guard(func() *eng.Fail { return run(j, c) }); f != nil {
+				eng.Recheck(c, sub, j, reg)
+			}
+			return
+		}
 		for k := 0; k < dctFamilies; k++ {
 			a := j
 			a.K = k
@@ -317,7 +415,7 @@ func dctEnumerate(c *eng.Ctx, sub string, codecs []int, run func(dctCase, *eng.C
 	if !done {
 		c.Capped("size x quality product cut by deadline")
 	}
-	c.Subspace("sizes-x-quality", c.Evals()-before, done, "every (w,h) in 1..33^2 x quality {1,25,50,75,90,100}, every quality 1..100 at {1x1,7x9,8x8,16x16,17x33}, x 11 content families; every image of <= 4 samples over {0,mid,MAX}; larger sizes with 3 qualities")
+	c.Subspace("sizes-x-quality", c.Evals()-before, done, "every (w,h) in 1..33^2 x quality {1,25,50,75,90,100}, every quality 1..100 at {1x1,7x9,8x8,16x16,17x33}, x 11 content families; every image of <= 4 samples over {0,mid,MAX}; larger sizes with 3 qualities; 712x608 images whose AC symbol histogram is Fibonacci over 18 symbols (optimised Huffman table at its 16-bit length limit)")
 }
 
 func c11(c *eng.Ctx) {
